@@ -142,6 +142,9 @@ func finishedLine(r *RNG, size int) ([]tak.Move, *tak.Position) {
 	}
 }
 
+// clock values (ms) around the branches of the budget rule and of analyze's guard
+var clockGridMS = []int{0, 1, 2, 4, 5, 6, 10, 1000, 60000}
+
 // bigTimes: clock arguments large enough that the depth-limited search is never cut short
 // (so the engine's answer does not depend on the wall clock).
 func bigGoArgs(r *RNG) string {
@@ -154,6 +157,10 @@ func bigGoArgs(r *RNG) string {
 		v := 20000 + r.Intn(3000000)
 		if (o == "winc" || o == "binc") && r.Chance(1, 2) {
 			v = r.Intn(5000)
+		}
+		if r.Chance(1, 2) {
+			// boundary clocks: the deadline analyze installs is compared, the search itself runs detached from it
+			v = clockGridMS[r.Intn(len(clockGridMS))]
 		}
 		a = append(a, o, strconv.Itoa(v))
 	}
@@ -311,8 +318,72 @@ func genTEIExhaustive(c *Ctx, size int, maxLen int) {
 	rec(nil)
 }
 
+func teiMin(a, b int) int {
+	if a < b {
+		return a
+	}
+	return b
+}
+
+// genTEIBoundary: every combination of mover (White / Black to move), wtime, btime on the boundary grid,
+// with and without movetime and increments; several `go`s per engine and a second game on the same engine.
+func genTEIBoundary(c *Ctx) {
+	var gos []string
+	mts := []string{"", "movetime 0", "movetime 1", "movetime 300", "movetime 100000"}
+	incs := []string{"", "winc 0 binc 0", "winc 1000 binc 2000", "binc 1 winc 5"}
+	for _, wt := range clockGridMS {
+		for _, bt := range clockGridMS {
+			for mi, mt := range mts {
+				inc := incs[(wt+bt+mi)%len(incs)]
+				parts := []string{"go"}
+				if mt != "" {
+					parts = append(parts, mt)
+				}
+				// a zero clock is sometimes sent explicitly, sometimes left out
+				if wt != 0 || (bt+mi)%2 == 0 {
+					parts = append(parts, "wtime "+strconv.Itoa(wt))
+				}
+				if bt != 0 || (wt+mi)%2 == 0 {
+					parts = append(parts, "btime "+strconv.Itoa(bt))
+				}
+				if inc != "" {
+					parts = append(parts, inc)
+				}
+				gos = append(gos, strings.Join(parts, " "))
+			}
+		}
+	}
+	k := 0
+	for _, size := range []int{3, 5} {
+		for _, blackToMove := range []bool{false, true} {
+			pos := "position startpos"
+			pos2 := "position startpos moves a1 b2 c3"
+			if blackToMove {
+				pos = "position startpos moves a1"
+				pos2 = "position startpos moves a1 b2"
+			}
+			for i := 0; i < len(gos); i += 5 {
+				if k%c.NShard == c.Shard {
+					cmds := []string{"teinewgame " + strconv.Itoa(size), pos}
+					cmds = append(cmds, gos[i:teiMin(i+3, len(gos))]...)
+					// a second game on the same engine, same mover, later position
+					cmds = append(cmds, "teinewgame "+strconv.Itoa(size), pos2)
+					cmds = append(cmds, gos[teiMin(i+3, len(gos)):teiMin(i+5, len(gos))]...)
+					out := c.Emit(teiLine("tei", 2, joinStream(cmds, true)))
+					countTEI(c, out)
+					c.Count("tei.boundary-clock.streams")
+					c.Count("tei.boundary-clock.deadline=0~" + strconv.Itoa(strings.Count(out, " dl=0 ")))
+					c.Count("tei.boundary-clock.no-deadline~" + strconv.Itoa(strings.Count(out, " dl=- ")))
+				}
+				k++
+			}
+		}
+	}
+}
+
 func genC17(c *Ctx) {
 	genBudget(c)
+	genTEIBoundary(c)
 	maxLen := 4
 	if c.Thorough() {
 		maxLen = 5
